@@ -8,7 +8,9 @@ EXTENDS Integers, Sequences, FiniteSets, TLC
 CONSTANTS N,                 \* number of tokens before <eof>
           MaxDepth,          \* max nesting of recovery points / look-aheads
           MaxErr,            \* bound on recorded errors (state constraint)
-          EntryFetchProtected \* TRUE: the first token fetch happens inside a recovery point
+          EntryFetchProtected \* TRUE: a token fetch at top level (first token, token after ';') cannot escape:
+                              \* the lexical error is recorded and the lexeme re-read as a <bad> token (nextTokenAtTopLevel);
+                              \* FALSE: the pinned code, the fetch sits outside every recovery point
 
 VARIABLES toks,      \* 1..N -> {"t", "bad"}; "bad" = lexically malformed lexeme
           cur,       \* 0 = nothing fetched yet, 1..N = current token, N+1 = <eof>
@@ -57,21 +59,24 @@ Panic ==
 Fetch == IF IsBad(cur + 1) THEN Panic
          ELSE /\ cur' = cur + 1 /\ phase' = "parse" /\ UNCHANGED <<toks, stack, rootMade, nerr, ret>>
 
+\* top-level fetch of the repaired code: a lexically bad lexeme becomes the current (<bad>) token and
+\* one error is recorded; no Bad node is made here - the statement parsed next reports and skips it
+TopFetchSafe == IF IsBad(cur + 1)
+                THEN /\ cur' = cur + 1 /\ nerr' = nerr + 1 /\ phase' = "parse" /\ UNCHANGED <<toks, stack, rootMade, ret>>
+                ELSE Fetch
 Start == /\ phase = "start"
-         /\ IF EntryFetchProtected
-            THEN /\ stack' = <<Frame("rec", 0)>> /\ phase' = "parse"
-                 /\ UNCHANGED <<toks, cur, rootMade, nerr, ret>>
-            ELSE Fetch
+         /\ IF EntryFetchProtected THEN TopFetchSafe ELSE Fetch
 
 \* Only the statement-list loop acts at top level: it starts the next statement (a recovery point);
 \* in the pinned code it first fetches the token after ';' outside any recovery point.
 IsSemi(i) == i >= 1 /\ i <= N /\ toks[i] = "semi"
 TopEnter == /\ phase = "parse" /\ stack = <<>> /\ cur > 0 /\ cur < Eof
-            /\ (EntryFetchProtected \/ ~IsSemi(cur))
+            /\ ~IsSemi(cur)
             /\ stack' = <<Frame("rec", cur)>>
             /\ UNCHANGED <<toks, cur, rootMade, nerr, phase, ret>>
-TopFetch == /\ phase = "parse" /\ stack = <<>> /\ ~EntryFetchProtected /\ IsSemi(cur) /\ Fetch
-Advance == phase = "parse" /\ Depth > 0 /\ cur < Eof /\ Fetch
+\* the statement-list loop: the token after ';' is fetched at top level
+TopFetch == /\ phase = "parse" /\ stack = <<>> /\ IsSemi(cur) /\ (IF EntryFetchProtected THEN TopFetchSafe ELSE Fetch)
+Advance == phase = "parse" /\ Depth > 0 /\ cur < Eof /\ ~IsBad(cur) /\ Fetch          \* a <bad> current token is never consumed by a production
 Enter   == phase = "parse" /\ Depth > 0 /\ Depth < MaxDepth /\ stack' = Append(stack, Frame("rec", cur))
            /\ UNCHANGED <<toks, cur, rootMade, nerr, phase, ret>>
 Leave   == /\ phase = "parse" /\ Depth > 0 /\ Top.type = "rec" /\ cur > 0
@@ -85,7 +90,7 @@ LookEnd == /\ phase = "parse" /\ Depth > 0 /\ Top.type = "look"
            /\ UNCHANGED <<toks, rootMade, nerr, phase, ret>>
 Raise   == phase = "parse" /\ Depth > 0 /\ cur > 0 /\ Panic              \* "unexpected token" etc.
 
-Finish  == /\ phase = "parse" /\ stack = <<>> /\ cur > 0
+Finish  == /\ phase = "parse" /\ stack = <<>> /\ cur > 0 /\ ~IsSemi(cur) /\ (IsBad(cur) => nerr > 0)
            /\ LET n == IF cur # Eof THEN nerr + 1 ELSE nerr IN
               /\ nerr' = n
               /\ ret' = [errNil |-> n = 0, tree |-> rootMade]
